@@ -1,12 +1,14 @@
 SPECIFICATION FracSpec
-CONSTANTS MaxCalls = 1 InvertStartBySecTruncation = FALSE TargetKeepsFraction = FALSE Tick = 100 SampleMod = 1 SampleSeed = 0
+CONSTANTS MaxCalls = 1 InvertStartBySecTruncation = FALSE TargetKeepsFraction = FALSE Tick = 100 SpreadEpochsOverSpan = FALSE SampleMod = 1 SampleSeed = 0
 CONSTANT StartSecs <- Secs60
 CONSTANT Dts <- DtsFrac
 CONSTANT Quots <- QuotsFrac
+CONSTANT SpanRems <- SpanRemsAll
 CONSTANT Rems <- RemsFrac
 INVARIANT StepsHonoured
 INVARIANT EpochsAreStartPlusKDt
 INVARIANT NoOvershoot
 INVARIANT StopsOnlyWhenNoStepFits
+INVARIANT TableIsStartPlusKDt
 INVARIANT SameAsDurations
 INVARIANT FracEmit
